@@ -21,6 +21,7 @@ with contextlib.redirect_stdout(buf):
 from src import utils
 from src.ir import ast
 from src.ir import java_types as jt
+from src.ir import types as tp
 from src.ir.context import Context
 from src.modules.processor import ProgramProcessor
 from src.transformations.base import Transformation
@@ -42,8 +43,11 @@ class TypeErasure(Transformation):          # named after the real ones: the opt
         k = CUR["step"]
         if CUR["sc"]["raiseAt"] == k:
             raise RuntimeError("scripted failure of step %d" % k)
-        if CUR["sc"]["tr"][k - 1]:
+        if CUR["sc"]["tr"][k - 1] == "vis":
             mark(self.program, k)
+            self.is_transformed = True
+        elif CUR["sc"]["tr"][k - 1] == "sil":      # a change of the program that no translation shows (a type registered in the context)
+            self.program.context.add_type(ast.GLOBAL_NAMESPACE, "silent_%d" % k, tp.TypeParameter("silent_%d" % k))
             self.is_transformed = True
 
 
@@ -80,7 +84,8 @@ def marks_of_text(path):
 
 def marks_of_bin(path):
     p = utils.load_program(path)
-    return sorted(int(n.split("_")[1]) for n in p.context.get_vars(ast.GLOBAL_NAMESPACE, only_current=True) if n.startswith("marker_"))
+    return sorted([int(n.split("_")[1]) for n in p.context.get_vars(ast.GLOBAL_NAMESPACE, only_current=True) if n.startswith("marker_")] +
+                  [int(n.split("_")[1]) for n in p.context.get_types(ast.GLOBAL_NAMESPACE, only_current=True) if n.startswith("silent_")])
 
 
 def name_of(rel, root):
